@@ -21,7 +21,7 @@ from mcx import geom, sched
 
 PID = "C15"
 RULE = (
-    "for every scenario (8 refinement inputs incl. an empty candidate list, caller-supplied optimiser options and a candidate exactly on the coordinate origin, 4 locate inputs incl. an empty image, 5 stored sequences incl. a translated box, incl. equal time stamps and empty frames, with/without "
+    "for every scenario (9 refinement inputs incl. an empty candidate list, caller-supplied optimiser options, a candidate exactly on the coordinate origin and a list naming the same candidate object twice, 4 locate inputs incl. an empty image, 5 stored sequences incl. a translated box, incl. equal time stamps and empty frames, with/without "
     "refinement, time course and track list) x worker count k in {2..n+1, auto}: every completion order of the n tasks on k FIFO workers "
     "(depth-first over choice sequences, default-first; count = k!*k^(n-k) for the library's one-task-per-item map, asserted for the "
     "enumerator on a trivial function); all call histories of length <= 2 (3 thorough) over (scenario, k in {1,2}) run in a freshly forked "
@@ -75,6 +75,8 @@ def scenarios(tier):
                          "shift": 0.3, "contrast": [1.0, 0.6, 1.5, 0.8, 1.2]}
     # first candidate centred EXACTLY on the coordinate origin of a periodic box (zero is a member of every alphabet), no displacement
     out["refine-origin"] = {"api": "refine", "drops": [([0.0, 0.0], 4.1, 1.0)] + DROPS5[1:n], "kwargs": {}, "shift": 0.0, "periodic": [True, True]}
+    # the SAME candidate object listed twice (and a noisy image, so that a fit started from a refined state moves on): aliasing in the input
+    out["refine-alias"] = {"api": "refine", "drops": DROPS5[:3], "kwargs": {"tolerance": 1e-3}, "shift": 0.4, "alias": True, "noise": 0.5}
     out["locate-empty"] = {"api": "locate", "drops": [], "kwargs": {"refine": True}}
     out["locate-one"] = {"api": "locate", "drops": DROPS5[2:3], "kwargs": {"refine": True, "modes": 1}}
     # the caller keeps ONE emulsion of candidates for the life of the process and hands a slice of it to every analysis
@@ -123,6 +125,9 @@ def build(sc):
 
     if sc["api"] == "refine":
         field = _field(sc.get("field_drops", sc["drops"]), sc.get("affine"), sc.get("contrast"), sc.get("periodic"))
+        if sc.get("noise"):
+            idx = np.indices(field.grid.shape)
+            field = field + sc["noise"] * ((((idx[0] * 3 + idx[1] * 4) * 37 + (idx[0] ** 2 + idx[1] ** 2) * 11) % 17) / 16.0 - 0.5)  # fixed lattice of values
         cands = []
         for i, (c, R, w) in enumerate(sc["drops"]):
             pos = np.array(c, float) + sc["shift"] * np.array([1.0, -0.7]) * (1 + 0.3 * i)
@@ -132,6 +137,8 @@ def build(sc):
                 cands.append(DiffuseDroplet(pos, R * 0.95))
             else:
                 cands.append(DiffuseDroplet(pos, R * (0.93 + 0.04 * i), w * 1.3))
+        if sc.get("alias"):
+            cands = [cands[0], cands[1], cands[0], cands[2], cands[1]]  # objects 0 and 1 appear twice
         return field, cands
     if sc["api"] == "locate":
         return (_field(sc["drops"]),)
